@@ -23,14 +23,33 @@ var safeNames = []string{"data.bin", "my file.txt", "report", "a b c.log", "x.ta
 // genPlainFile draws an uncompressed input.
 func genPlainFile(r *sim.Rng, name string, max int) FileSpec {
 	pl := sim.GenPayload(r, max)
+	if max >= 3000 && r.Chance(1, 40) {
+		pl = zeroTailPayload(r)
+	}
 	mode := sim.Pick(r, []uint32{0o644, 0o600, 0o664, 0o755, 0o444, 0o640, 0o666, 0o777})
 	return FileSpec{Name: name, Mode: mode, Kind: "plain", Payload: &pl}
+}
+
+// zeroTailPayload: content whose size is a multiple of 32 KiB (the unit in which
+// gxz copies) and whose last 32 or 64 KiB are zero bytes - a disk image with
+// free space at its end. Anything clever about runs of zeros (holes) has to
+// get the end of such a file right.
+func zeroTailPayload(r *sim.Rng) sim.Payload {
+	parts := []sim.Payload{}
+	if r.Bool() {
+		parts = append(parts, sim.Payload{Kind: sim.Pick(r, []string{"text", "prng"}), N: 32768 * r.Range(1, 2), Seed: r.Uint64()})
+	}
+	parts = append(parts, sim.Payload{Kind: "run", N: 32768 * r.Range(1, 2), A: 0})
+	return sim.Payload{Kind: "concat", Parts: parts}
 }
 
 // genCompressedStream draws a valid compressed file of a format that gxz
 // recognises (dictionary sizes gxz's header check accepts).
 func genCompressedStream(r *sim.Rng, format string, max int) *checks.StreamRecipe {
 	pl := sim.GenPayload(r, max)
+	if max > 0 && r.Chance(1, 25) {
+		pl = zeroTailPayload(r)
+	}
 	n := pl.Len()
 	dict := sim.Pick(r, []int{4096, 1 << 16, 1 << 18, 1 << 20, 6144, 3 << 15, 3 << 18}) // 2^n and 2^n + 2^(n-1): what xz-utils' header check accepts
 	if format == "xz" && max > 0 && r.Chance(1, 6) {
@@ -267,9 +286,12 @@ func genC10(r *sim.Rng, tier string, idx int) *GCase {
 		case 2:
 			// the name is taken by a symbolic link: dangling, or to a file
 			ref := "nowhere"
-			if r.Bool() {
+			switch r.Intn(3) {
+			case 1:
 				ref = "the referent"
 				c.Files = append(c.Files, genPlainFile(r, ref, 100))
+			case 2:
+				ref = in // the link under the target name leads back to the input
 			}
 			c.Files = append(c.Files, FileSpec{Name: tgt, Kind: "symlink", Target: ref})
 		default:
